@@ -967,7 +967,8 @@ def jobs(tier):
         out.append(dict(id=func[3:] + '.mixedkeys', func=func, params=dict(N=2, keypool=True, kinds=('int',), no_cull=True, tags=False, **extra), tags=['C02', 'C03'], functions=FUNCS[func] + ['core.Disk.put'],
                         weight=30, must_reach=['mixed_keys']))
     out.append(dict(id='iter.mixedkeys', func='ob_iter', params=dict(N=2, keypool=True, kinds=('int',), how='iter'), tags=['C02', 'C03'], functions=FUNCS['ob_iter'], weight=10))
-    out.append(dict(id='iterkeys.mixedkeys', func='ob_iter', params=dict(N=2, keypool=True, kinds=('int',), how='iterkeys'), tags=['C02', 'C03'], functions=FUNCS['ob_iter'], weight=10))
+    for how in ('iterkeys', 'iterkeys_rev', 'reversed'):
+        out.append(dict(id='%s.mixedkeys' % how, func='ob_iter', params=dict(N=2, keypool=True, kinds=('int',), how=how), tags=['C02', 'C03'], functions=FUNCS['ob_iter'], weight=10))
     # ---- directives: busy lock (C14), injected fault (C08), kill (C07)
     NB = 2
     for func in ('ob_set', 'ob_set_file', 'ob_add', 'ob_add_file', 'ob_touch', 'ob_incr', 'ob_pop', 'ob_delete'):
